@@ -93,10 +93,10 @@ fn ops_one(a: &[Iupac], b: &[Iupac], s1: usize, s2: usize, out: &mut Out) {
     // owned operands: freshly built, and copied out of the offset slices (so their internal heads may differ)
     expect!("bit_or(fresh, fresh)", "bit_or(fresh,fresh)", build(a).bit_or(build(b)), &want_or);
     expect!("bit_and(fresh, fresh)", "bit_and(fresh,fresh)", build(a).bit_and(build(b)), &want_and);
-    expect!("bit_or(copied, copied)", "bit_or(copied,copied)", pa.view().to_owned().bit_or(pb.view().to_owned()), &want_or);
-    expect!("bit_and(copied, copied)", "bit_and(copied,copied)", pa.view().to_owned().bit_and(pb.view().to_owned()), &want_and);
-    expect!("bit_or(copied, fresh)", "bit_or(copied,fresh)", pa.view().to_owned().bit_or(build(b)), &want_or);
-    expect!("bit_and(fresh, copied)", "bit_and(fresh,copied)", build(a).bit_and(pb.view().to_owned()), &want_and);
+    expect!("bit_or(copied, copied)", "bit_or(copied,copied)", owned_headed(a, s1).bit_or(owned_headed(b, s2)), &want_or);
+    expect!("bit_and(copied, copied)", "bit_and(copied,copied)", owned_headed(a, s1).bit_and(owned_headed(b, s2)), &want_and);
+    expect!("bit_or(copied, fresh)", "bit_or(copied,fresh)", owned_headed(a, s1).bit_or(build(b)), &want_or);
+    expect!("bit_and(fresh, copied)", "bit_and(fresh,copied)", build(a).bit_and(owned_headed(b, s2)), &want_and);
     out.stage = "operands unchanged";
     out.check(matches(pa.view(), a) && matches(pb.view(), b), || ("iupac/ops/operand-changed".into(), format!("operand changed: {} / {}", show_cut(a), show_cut(b))));
 }
@@ -123,7 +123,7 @@ fn contains_one(pat: &[Iupac], arg: &[Iupac], s1: usize, s2: usize, out: &mut Ou
             format!("Seq {}.contains({}) = {:?}, want {want}", show_cut(pat), show_cut(arg), r),
         )
     });
-    let copied: Seq<Iupac> = pp.view().to_owned();
+    let copied: Seq<Iupac> = owned_headed(pat, s1);
     let r = out.catch(|| copied.contains(pq.view()));
     out.check(r == Ok(want), || {
         (
